@@ -312,8 +312,9 @@ Definition tstep (s : tstate) (i : tin) (oracle : list hans) : tstate * list tou
             | None => ([], false)
             | Some m =>
                 let '(outs, resp, v, used) := process_extension s k p m a1 in
+                (* ErrPause = "the local side is still paused": the request is left as it is (fix #7) *)
                 (outs ++ (match resp with Some r => [OAct (AUpdateRequest r)] | None => [] end) ++
-                 (match v with HNil => [] | _ => [OAct ATerminate] end), used)
+                 (match v with HErr => [OAct ATerminate] | _ => [] end), used)
             end in
           let a2 := if used1 then fst (pop_ans rest) else a1 in
           let o2 :=
@@ -321,7 +322,7 @@ Definition tstep (s : tstate) (i : tin) (oracle : list hans) : tstate * list tou
             | None => []
             | Some m =>
                 let '(outs, _, v, _) := process_extension s k p m a2 in
-                outs ++ (match v with HNil => [] | _ => [OAct ATerminate] end)
+                outs ++ (match v with HErr => [OAct ATerminate] | _ => [] end)
             end in
           (s, o1 ++ o2)
       end
